@@ -571,6 +571,38 @@ theorem JI_step {j : JState} {seen off : List Nat} (h : JI j seen off) (e : Ev)
     · refine ⟨h1.nodup, h1.hseen, h1.hoff, ?_⟩
       intro o' ho'; cases ho'
     · exact h1
+  | errR =>
+    refine ⟨rfl, rfl, ?_⟩
+    rw [judge1_errR]
+    have h1 : JI (jErr1 j) seen off := by
+      unfold jErr1
+      cases hc : j.cur with
+      | none => exact h
+      | some c =>
+        simp only
+        obtain ⟨sd, sp, sl⟩ : ((jDisableAlive j c).done.map (·.ob)).Sublist (j.done.map (·.ob)) ∧
+            ((jDisableAlive j c).pend.map (·.ob)).Sublist (j.pend.map (·.ob)) ∧
+            ((jDisableAlive j c).late.map (·.ob)).Sublist (j.late.map (·.ob)) := by
+          unfold jDisableAlive
+          split
+          · exact ⟨List.Sublist.refl _, List.Sublist.refl _, List.Sublist.refl _⟩
+          · exact jDisable_segments j c
+        have hf := jDisableAlive_frame j c
+        have := JI_shrink h sd sp sl (fun o ho => by rw [hf.expect] at ho; exact ho)
+        exact ⟨this.nodup, this.hseen, this.hoff, this.exp⟩
+    unfold jErr
+    split
+    · refine ⟨h1.nodup, h1.hseen, h1.hoff, ?_⟩
+      intro o' ho'; cases ho'
+    · exact h1
+  | moved i d => exact ⟨rfl, rfl, h⟩
+  | movedNone i d => exact ⟨rfl, rfl, h⟩
+  | hookMoved i =>
+    refine ⟨rfl, rfl, ?_⟩
+    simp only [judge1] at hacc ⊢
+    split
+    · exact h
+    · rename_i hc; rw [if_neg hc] at hacc; exact absurd hacc (flagV_bad_ne rfl)
   | topErr o => exact ⟨rfl, rfl, h⟩
   | topDead o =>
     refine ⟨rfl, rfl, ?_⟩
@@ -751,6 +783,10 @@ theorem judge1_bad (j : JState) (e : Ev) : (judge1 j e).bad = j.bad ∨ ∃ v, (
   | hookGone i => simp only [judge1]; split <;> first | exact Or.inl rfl | exact Or.inr ⟨_, rfl⟩
   | destGone s t => simp only [judge1]; split <;> first | exact Or.inl rfl | exact Or.inr ⟨_, rfl⟩
   | err o => rw [judge1_err]; exact Or.inl (jErr_bad j)
+  | errR => rw [judge1_errR]; exact Or.inl (jErr_bad j)
+  | moved i d => exact Or.inl rfl
+  | movedNone i d => exact Or.inl rfl
+  | hookMoved i => simp only [judge1]; split <;> first | exact Or.inl rfl | exact Or.inr ⟨_, rfl⟩
   | topErr o => exact Or.inl rfl
   | topDead o => simp only [judge1]; split <;> first | exact Or.inl rfl | exact Or.inr ⟨_, rfl⟩
   | topNoObj o => simp only [judge1]; split <;> first | exact Or.inl rfl | exact Or.inr ⟨_, rfl⟩
@@ -1035,6 +1071,15 @@ theorem quiet_step (j : JState) (e : Ev) (hq : quietExp j.expect = true) (hnt : 
     split
     · rfl
     · rw [jErr1_expect]; exact hq
+  | errR =>
+    rw [judge1_errR]
+    unfold jErr
+    split
+    · rfl
+    · rw [jErr1_expect]; exact hq
+  | moved i d => exact hq
+  | movedNone i d => exact hq
+  | hookMoved i => simp only [judge1]; split <;> exact hq
   | topErr o => exact hq
   | topDead o => simp only [judge1]; split <;> exact hq
   | topNoObj o => simp only [judge1]; split <;> exact hq
